@@ -591,12 +591,16 @@ let fam_c13 tier r =
 let rand_bytes r n =
   String.init n (fun _ -> Char.chr (pick r [ 32; 34; 92; 61; 9; 10; 39; 128 + rint r 128; 97 + rint r 26; 1 + rint r 254; 47 ]))
 let fam_c03 tier r =
-  let n = if tier = "quick" then 320 else 12000 in
+  (* a scenario with a 20 000-character directory weighs megabytes (strings are lists of Coq's binary
+     integers), and the family is built before the workers fork: the thorough tier keeps the number
+     of very long directories bounded (memory), and spends the rest on argv / environment shapes *)
+  let n = if tier = "quick" then 320 else 2400 in
   let one k =
     let r = split r k in
     let nargs = pick r [ 0; 1; 2; 5; 40 ] in
     let args = List.init nargs (fun _ -> rand_bytes r (pick r [ 0; 0; 1; 3; 20; 300 ])) in
-    let cwd_len = pick r [ 1; 9; 100; 4093; 4094; 4095; 4096; 4097; 8190; 8191; 8192; 8193; 20000 ] in
+    let cwd_len = if tier <> "quick" && not (chance r 1 4) then pick r [ 1; 9; 100 ]
+      else pick r [ 1; 9; 100; 4093; 4094; 4095; 4096; 4097; 8190; 8191; 8192; 8193; 20000 ] in
     let cwd = if cwd_len <= 9 then "/w/parent" else "/" ^ String.make (cwd_len - 1) 'd' in
     let cwd = if cwd_len > 9 && rbool r then String.sub cwd 0 (String.length cwd - 1) ^ "/" else cwd in
     let form = rint r 5 in
